@@ -66,13 +66,16 @@ pub fn check_at(buf: &[u8], off: usize) -> (Vec<Finding>, bool, &'static str) {
         }
         (Ok(Err(e)), Ok(r)) => {
             nontrivial = true;
-            if r.backward_only && r.prior_only {
+            if r.backward_only && r.prior_only && (r.ptrs <= 16 || !r.ptr_to_ptr) {
                 tag = "rejects-valid";
                 out.push(finding(
                     "C06|rejects-valid",
                     format!("decode at {} of {} rejected ({:?}); RFC decoder gives {:?} using only backward pointers", off, hex(buf), e, r.name),
                     mk_case(),
                 ));
+            } else if r.backward_only && r.prior_only {
+                // chains of pointers to pointers: a decoder may cap the number of jumps
+                tag = "reject-pointer-chain";
             } else if r.backward_only {
                 // a pointer into the label run it ends is not a prior occurrence; a decoder may refuse it
                 tag = "reject-pointer-into-own-run";
@@ -566,7 +569,7 @@ pub fn run(ctx: &Ctx) {
                     t.nontrivial += 1;
                 }
                 t.outcome(tag);
-                if tag == "rejected" && walk(m).is_ok() {
+                if tag == "rejected" && crate::refmodel::wire::must_be_accepted(m) {
                     f.push(finding("C06|embedded|rejects-valid", format!("message whose names are all valid backward-pointer names rejected: {}", crate::engine::truncate(&hex(m), 300)), json!({"kind": "embedded", "msg": hex(m), "rdata_name_at": null, "expect_accept": true})));
                 }
                 // MX exchange: third record, when present and accepted, must be the RFC decoding
@@ -586,7 +589,7 @@ pub fn run(ctx: &Ctx) {
                 t.nontrivial += 1;
             }
             t.outcome(tag);
-            if tag == "rejected" && walk(m).is_ok() {
+            if tag == "rejected" && crate::refmodel::wire::must_be_accepted(m) {
                 f.push(finding("C06|embedded|rejects-valid", format!("message whose names are all valid backward-pointer names rejected: {}", crate::engine::truncate(&hex(m), 300)), json!({"kind": "embedded", "msg": hex(m), "rdata_name_at": null, "expect_accept": true})));
             }
             if !f.is_empty() {
